@@ -9,6 +9,7 @@ import pkgutil
 import socket
 import sys
 
+HOSTNAMES = [None, "a" * 64, "node7..cluster", "m\u00fcnchen-host", "", "host with blanks{0}%s", "x" * 63 + ".example.org"]
 OPENS = []
 RECORD = [False]
 IGNORE_PREFIXES = []
@@ -32,6 +33,11 @@ def _audit(event, args):
 def main():
     repo, has_sgio, has_iscsi = sys.argv[1], sys.argv[2] == "1", sys.argv[3] == "1"
     sys.path.insert(0, repo)
+    # the machine's host name (it ends up in the default initiator name) is one more answer of the environment
+    hv = int(sys.argv[5]) if len(sys.argv) > 5 else 0
+    if hv:
+        hostname = HOSTNAMES[hv]
+        socket.gethostname = lambda: hostname
     from vf.sim import install, nodes, registry
     from vf.sim.target import Target
     install.install(int(sys.argv[2]), int(sys.argv[3]))
